@@ -204,6 +204,33 @@ CHECKS["C07"] = dict(
     ref="DESIGN.md 5 C07", technique="TLA+ spec (Calls.tla) + TLC-enumerated fault behaviours replayed on real code with real "
                                       "server stops; TLC trace validation")
 
+GEN_NOTE = ("Trusted: TLC, the descriptor construction and the go/ast extraction in harness/cmd/drive/gencmd.go, the Go "
+            "compiler as oracle for 'compiles'. The plugin and protoc-gen-go run as subprocesses on programmatic "
+            "CodeGeneratorRequests (protoc is not available offline).")
+CHECKS["C16"] = dict(
+    engine="gen", category="model_checking",
+    text="Gen.tla transcribes doc/method-options.md: Verdict(service) in {accept (documented combination), reject (reserved "
+         "message name, documented illegal stream/option combination), either (undocumented mix: diagnostic or compiling "
+         "output)} and Acceptable(verdict, run). TLC enumerates the lattice (821 single-method services over option sets x "
+         "per_node_arg x custom_return_type x client/server stream x local/imported types, reserved names, two services; "
+         "thorough adds all ordered pairs of documented methods); the plugin built from the working tree runs three times "
+         "per definition under a timeout (determinism = identical bytes), everything emitted is compiled with the standard "
+         "message code against /repo in one batch, and TLC validates every outcome.",
+    ref="DESIGN.md 5 C16, 3.4", note=GEN_NOTE,
+    technique="TLA+ transcription of the option lattice (Gen.tla); TLC enumeration; each case replayed on the real plugin and compiled; TLC validation")
+CHECKS["C17"] = dict(
+    engine="gen", category="model_checking",
+    text="Binding(method) of Gen.tla: receiver type, runtime entry (RPCCall/QuorumCall/AsyncCall/CorrectableCall/Multicast/"
+         "Unicast), the fully-qualified method string on the client stub and in the server registration, ServerStream flag, "
+         "PerNodeArgFn, quorum-function name, server handler kind. For every accepted method of the enumerated services the "
+         "tuple extracted with go/ast from the freshly generated code must equal the specification's row. All behavioural "
+         "checks (C01-C12) link stubs regenerated from the working tree, so a wrong binding also shows up as a rejected "
+         "trace there. Auxiliary, syntactic: all 19 checked-in *_gorums.pb.go of the root module are regenerated from their "
+         "compiled-in descriptors and compared with the committed files comments aside, and template_static.go is compared "
+         "with the bundle produced in a scratch copy of the repository.",
+    ref="DESIGN.md 5 C17, 3.4", note=GEN_NOTE,
+    technique="TLA+ binding table (Gen.tla); go/ast extraction from regenerated code validated by TLC; committed vs regenerated comparison")
+
 PENDING = {
     "C03": "check under construction (Fifo layer, DESIGN.md 11 step 3)",
     "C04": "check under construction (Fifo layer, DESIGN.md 11 step 3)",
@@ -250,6 +277,9 @@ def main():
             {"name": "life", "path": "tools/check_life.py", "serves_properties": ["C08", "C09", "C10", "C12"],
              "kind_free_text": "TLC on specs/Channel.tla (ChannelMC configs) + drive life (gated scenarios, one process each) "
                                "+ drive m3 (free workloads) + TLC trace validation with LifeTrace.tla / RoutingTrace.tla"},
+            {"name": "gen", "path": "tools/check_gen.py", "serves_properties": ["C16", "C17"],
+             "kind_free_text": "TLC on specs/Gen.tla (GenGen lattice, GenTrace validation) + drive gen / drive regen (plugin "
+                               "subprocess, batched go build, go/ast binding extraction)"},
             {"name": "calls", "path": "tools/check_calls.py",
              "serves_properties": ["C01", "C02", "C06", "C07", "C11"],
              "kind_free_text": "TLC on specs/Calls.tla (CallsMC exhaustive, CallsGen behaviour generator, CallsTrace trace "
